@@ -2,11 +2,12 @@
 import XehModel.Model.Words
 import XehModel.Model.Tags
 import XehModel.Model.Enc
+import XehModel.Model.PrintWords
 
 namespace Xeh
 
 def nativeTable : List (String × Prog) :=
-  coreTable ++ arithTable ++ Coll.collTable ++ Coll.tagTable ++ Enc.encTable
+  coreTable ++ arithTable ++ Coll.collTable ++ Coll.tagTable ++ Enc.encTable ++ printTable
 
 def nativeProg (name : String) : Option Prog := nativeTable.lookup name
 
